@@ -194,6 +194,11 @@ def hist_ops(nfiles, with_remodel):
         # remodel is run on all tasks: run_remodel's task filter keys on BIDS 'task-<name>' entities while
         # BackupManager.get_task keys on 'task_<name>', so a task-filtered remodel has no common file naming (observation)
         ops += [("remodel", None)]
+        # with a task filter: the restore step that precedes the run goes by 'task_<name>' (only those files are put back),
+        # the run itself by 'task-<name>' (no file of this tree carries that form, so nothing is remodeled)
+        ops += [("remodel", "go")]
+    # an edit that keeps the file's length and modification time
+    ops += [("modify-keep", 0), ("modify-keep", 2)]
     return ops
 
 
@@ -219,6 +224,16 @@ def run_history(rec, bm_mod, cli, root, selection, hist):
                 with open(p, "w") as f:
                     f.write(new)
                 model[rel] = new
+            elif op[0] == "modify-keep":
+                rel = FILES3[op[1]][0]
+                p = os.path.join(root, rel)
+                if rel in model:
+                    st_ = os.stat(p)
+                    new = model[rel].replace("0", "8", 1) if "0" in model[rel] else model[rel].replace("8", "0", 1)
+                    with open(p, "w") as f:
+                        f.write(new)
+                    os.utime(p, ns=(st_.st_atime_ns, st_.st_mtime_ns))
+                    model[rel] = new
             elif op[0] == "delete":
                 rel = FILES3[op[1]][0]
                 p = os.path.join(root, rel)
@@ -249,7 +264,8 @@ def run_history(rec, bm_mod, cli, root, selection, hist):
                         model[rel] = content
             elif op[0] == "remodel":
                 args = [root, model_path, "-x", "derivatives", "-ns"] + (["-t", op[1]] if op[1] else [])
-                uncovered = sorted(r for r in model if r not in backed)
+                # (a task-filtered run works on no file of this tree, so no file lacks its backed-up original)
+                uncovered = sorted(r for r in model if r not in backed) if op[1] is None else []
                 if uncovered:
                     # a data file without a backed-up original: the run is refused and nothing is touched (it could not
                     # "start from the backed-up originals")
@@ -277,8 +293,10 @@ def run_history(rec, bm_mod, cli, root, selection, hist):
                 else:
                     cli["remodel"].main(args)
                     for rel, content in backed.items():
-                        if op[1] is None or task_of(rel) == op[1]:
+                        if op[1] is None:
                             model[rel] = remodeled(content)
+                        elif task_of(rel) == op[1]:
+                            model[rel] = content
         except BaseException as e:
             rec.violation(f"C18:history:{op[0]}-raises:{type(e).__name__}", error=repr(e)[:300], **where)
             return
